@@ -44,6 +44,14 @@ structure HandleOut where
   tokSize : Option (Option Int)
 deriving Repr, DecidableEq
 
+/-- the tracked entries of the context `child_context` returns (`none`: key absent), and whether a foreign key of the
+parent's context is still there -/
+structure CtxOut where
+  parents : Option (List Tree)
+  newParents : Option (List Tree)
+  path : Option (List Int)
+  otherKept : Bool
+
 namespace PyPrim
 
 /-- `Decimal(v).normalize()` when `v` is text, the default when it is `None`; `none` = `InvalidOperation` -/
